@@ -11,6 +11,8 @@ From P7 Require HeaderGenPrims FolderGen.
 From P7 Require SubstreamsGen.
 From P7 Require StreamsGen.
 From P7 Require FilesGen.
+From P7 Require Crc32 Trace SigGen.
+From P7gen Require ArchiveinfoSig.
 From P7gen Require ArchiveinfoRecords.
 Open Scope Z_scope.
 
@@ -386,3 +388,17 @@ Theorem C06_gen_FilesInfo_retrieve_is_parse_files : forall lim bs fuel, wf_bytes
     (parse_files lim bs).
 Proof. exact FilesGen.gen_FilesInfo_retrieve_model_or. Qed.
 Print Assumptions C06_gen_FilesInfo_retrieve_is_parse_files.
+
+(* ---- third wave (stage 4, part 2): SignatureHeader._read / retrieve as translated on this run (gen/ArchiveinfoSig.v, over the
+   generated helpers.calculate_crc32 with zlib.crc32 := Crc32.crc32_update), on the whole file image of at least 32 bytes
+   (the method seeks to offset 6 itself; read_fully(file, 26) = the next 26 bytes, compared with helpers.read_fully by
+   harness/prims.py): the fields are Trace.v's sig_ofs / sig_size / sig_hcrc, Bad7zFile exactly when the start header CRC
+   does not match (the second conjunct of Trace.sig_ok; the first, the magic, is _check_7zfile's). ---- *)
+Theorem C06_gen_SignatureHeader_retrieve_is_sig_fields : forall (img : bytes) fuel, (8 <= fuel)%nat -> (32 <= length img)%nat ->
+  ArchiveinfoSig.SignatureHeader_retrieve SigGen.zcrc img fuel
+  = if Crc32.crc32 (Trace.slice img 12 20) =? le_value (Trace.slice img 8 4)
+    then Ok (ArchiveinfoSig.mkSignatureHeader ([nth 6 img 0], [nth 7 img 0]) (le_value (Trace.slice img 8 4))
+               (Trace.sig_ofs img) (Trace.sig_size img) (Trace.sig_hcrc img), [])
+    else Err EBad7z.
+Proof. exact SigGen.gen_sig_retrieve. Qed.
+Print Assumptions C06_gen_SignatureHeader_retrieve_is_sig_fields.
